@@ -274,37 +274,14 @@ theorem replay_all_idle (im : IdMap) (k : Nat) (txs : List (Nat × List WalRec))
     rw [this]
     exact ih (fun t ht => h t (List.mem_cons_of_mem _ ht))
 
-/-- the state after a compaction that had something to compact, as a function of the new segment, the
-    sunk properties and the checkpoint txid -/
-def compactedWith (s : Engine) (seg : Seg) (sunk : Store) (upTo : Nat) : Engine :=
-  { s with segStore := seg :: s.segStore, store := sunk ++ s.store,
-           wal := s.wal ++ [.beginTx s.nextTxid,
-                            .manifestSwitch (s.epoch + 1) ((seg :: s.segs).map (·.id)) (if sunk.isEmpty then s.propsRoot else 1),
-                            .checkpoint upTo (s.epoch + 1) (if sunk.isEmpty then s.propsRoot else 1), .commitTx s.nextTxid],
-           nextTxid := s.nextTxid + 1, nextSegId := s.nextSegId + 1,
-           ckptTxid := upTo, propsRoot := (if sunk.isEmpty then s.propsRoot else 1), runs := [],
-           segs := seg :: s.segs, epoch := s.epoch + 1 }
-
-theorem compact_eq (c : Cfg) (s : Engine) (h : s.runs.isEmpty = false) :
-    s.compact c = compactedWith s
-      (buildForward s.nextSegId (collectRunEdges (!c.compactOwnLast) s.runs [] [])).persist
-      ((Engine.sinkProps (·.nprops) s.runs).map (fun p => (SKey.node p.1.1 p.1.2, p.2)) ++
-        (Engine.sinkProps (·.eprops) s.runs).map (fun p => (SKey.edge p.1.1 p.1.2, p.2)))
-      (s.runs.foldl (fun m r => max m r.txid) 0) := by
-  unfold Engine.compact compactedWith
-  rw [h]
-  rfl
-
-theorem compact_noop (c : Cfg) (s : Engine) (h : s.runs.isEmpty = true) : s.compact c = s := by
-  unfold Engine.compact; rw [h]; rfl
-
 /-- `compact` keeps the recovery invariant when the label vectors are the persisted first labels -/
 theorem Rec.compact (c : Cfg) {s : Engine} (hR : Rec s) (hQ : Quiet s) (hB : LabelsBase s.idmap) :
     Rec (s.compact c) ∧ Quiet (s.compact c) := by
   cases he : s.runs.isEmpty with
   | true => rw [compact_noop c s he]; exact ⟨hR, hQ⟩
   | false =>
-  rw [compact_eq c s he]
+  obtain ⟨st, root, sr, heq⟩ := compact_eq c s he
+  rw [heq]
   have hck := hR.ckptLt
   obtain ⟨⟨txs, hb, hl, hs, hg, b1, b2, b3⟩, hp, ha⟩ := hR
   obtain ⟨txs', hb', hq⟩ := hQ.inv
@@ -327,7 +304,6 @@ theorem Rec.compact (c : Cfg) {s : Engine} (hR : Rec s) (hQ : Quiet s) (hB : Lab
   generalize ((Engine.sinkProps (·.nprops) s.runs).map (fun p => (SKey.node p.1.1 p.1.2, p.2)) ++
       (Engine.sinkProps (·.eprops) s.runs).map (fun p => (SKey.edge p.1.1 p.1.2, p.2)) : Store) = sunk
   generalize s.runs.foldl (fun m r => max m r.txid) 0 = upTo at hupck hupmax hge ⊢
-  let root := if sunk.isEmpty then s.propsRoot else 1
   let metaTx : Nat × List WalRec := (s.nextTxid, [.manifestSwitch (s.epoch + 1) ((seg :: s.segs).map (·.id)) root,
     .checkpoint upTo (s.epoch + 1) root])
   have hinert : ∀ r ∈ metaTx.2, r.isInert = true := by
